@@ -49,7 +49,7 @@ def one(d):
     if 'error' in res:
         return d.name, res['error']
     if d.parent.name == 'seeded':
-        if 'first_contact' not in meta and not meta.get('refreshed') and d.name[-3:] in ('_m3', '_m4'):
+        if 'first_contact' not in meta and not meta.get('refreshed') and d.name[-3:] not in ('_m1', '_m2'):
             meta['first_contact'] = meta.get('checks_reporting', {})     # round 2: verdicts before any strengthening
         meta['checks_reporting'] = res
         meta['caught_by_own_property_check'] = meta['property'] in res and res[meta['property']]['exit'] == 1
